@@ -11,6 +11,7 @@ import CambrianModel.Lemmas.PopInv
 import CambrianModel.Model.Process
 import CambrianModel.Model.MetaAdapt
 import CambrianModel.Lemmas.LaunchLemmas
+import CambrianModel.Lemmas.ReportLemmas
 namespace Cambrian.Props
 open Cambrian Cambrian.Ctl Cambrian.Proc
 
@@ -282,6 +283,25 @@ theorem C14_meta_scale (x : F64) (hx : Meta.MulSign x) : Meta.isScale (Meta.scal
 /-- negative witness: without the clamp an overflowing product is handed on as it is (the defect D11) -/
 example : Meta.MulSign .pinf ∧ Meta.isScale (Meta.scaleOut false .pinf) = false := by
   simp [Meta.MulSign, Meta.isScale, Meta.scaleOut, F64.le, F64.lt, F64.feq, F64.isFinite]
+
+/-! ### the text of one record -/
+
+/-- Every record can be read back exactly from its row - individual id, seed, result, adaptive parameters and the
+    parameter set - whatever the parameter set contains (its JSON may contain the separator `;`): seven fields from
+    the left, two from the right, the JSON in between. -/
+theorem C14_row_roundtrip (r : Report.Row) (h : r.plainOk = true) : Report.parse (Report.format r) = some r :=
+  Report.parse_format r h
+
+/-- the order of the fields in the model's row is the order of the arguments of the `format!` call in
+    `detailed_report.rs` (extracted on every run), and the header row names them in that order -/
+theorem C14_row_order :
+    Generated.csvFieldOrder = ["individual_id", "eval_time", "meta_params_source", "crossover_prob", "selection_pressure",
+      "mutation_prob", "mutation_scale", "input_val", "seed", "obj_func_val"] ∧
+    Generated.csvHeader = "individualId;evalTimeSeconds;metaParamsSource;crossoverProb;selectionPressure;mutationProb;mutationScale;inputVal;seed;objFuncVal\n" := by
+  decide
+
+example : Report.parse (Report.format ⟨"3".toList, "0.5".toList, [], [], [], [], [], "{\"a;b\":[1;2]}".toList, "7".toList, [] ⟩) =
+    some ⟨"3".toList, "0.5".toList, [], [], [], [], [], "{\"a;b\":[1;2]}".toList, "7".toList, []⟩ := by decide
 
 /-! ### L7: the report writer is drained before `launch` returns - also when the run failed -/
 
